@@ -1,11 +1,29 @@
 #!/bin/bash
-# tools/recheck_seeds.sh [lanes]  - re-apply every stored seed to a scratch copy of /repo HEAD and run the property's own
-# quick check against it; prints one line per seed (rc=1 means the seed is still reported).
+# tools/recheck_seeds.sh [lanes] [name-regex]
+# Re-applies every stored seed (matching the regex) to a scratch copy of /repo HEAD and runs the FIRST check recorded in its
+# meta.json caught_by list (the property's own check when it is among them); prints one line per seed and a summary of seeds
+# that were recorded as caught but are not reported any more.  Seeds recorded as uncaught / neutralised are skipped.
 cd "$(dirname "$0")/.."
-LANES=${1:-3}
-ls seeded | awk -v n=$LANES '{print > ("/tmp/recheck_lane_" (NR % n))}'
+LANES=${1:-4}; RE=${2:-.}
+/venv/bin/python - "$RE" > /tmp/recheck_list.txt <<'PY'
+import json, os, re, sys
+for n in sorted(os.listdir('seeded')):
+    if not re.search(sys.argv[1], n):
+        continue
+    m = json.load(open('seeded/%s/meta.json' % n))
+    cb = m.get('confirmed_by', {}).get('caught_by', [])
+    if not cb or 'note_after_R18' in m:
+        continue
+    own = n.split('_')[0]
+    print(n, own if own in cb else cb[0])
+PY
+rm -f /tmp/recheck_lane_* /tmp/recheck_out_*.log
+awk -v n=$LANES '{print > ("/tmp/recheck_lane_" (NR % n))}' /tmp/recheck_list.txt
 for k in $(seq 0 $((LANES-1))); do
-  ( while read name; do id=${name%%_*}; tools/try_seed.sh $name $id 2>&1 | cut -c1-140; done < /tmp/recheck_lane_$k ) > /tmp/recheck_out_$k.log 2>&1 &
+  [ -f /tmp/recheck_lane_$k ] || continue
+  ( while read name chk; do tools/try_seed.sh $name $chk 2>&1 | cut -c1-140; done < /tmp/recheck_lane_$k ) > /tmp/recheck_out_$k.log 2>&1 &
 done
 wait
 cat /tmp/recheck_out_*.log | sort
+echo "--- not reported any more:"
+cat /tmp/recheck_out_*.log | grep -v "rc=1 " || true
